@@ -55,6 +55,8 @@ THEOREMS = [
     "same_workflow_race_time_differs", "same_workflow_race_launches_twice",
     "crash_between_launch_and_record_relaunches", "old_design_counters_continue", "old_design_mixes_workflows",
     "old_design_fresh_process_replays", "new_design_same_histories",
+    # Props/C18Fault.lean: transient read faults of the workflow records (shape of _deterministic_operation read by translate/detop.py)
+    "exec_code", "nth_value_is_the_final_record", "executions_agree", "retry_after_counting_shifts_the_values", "code_counts_once_then_looks_up",
 ]
 
 ACCESS = ("get", "set", "launch")
@@ -1384,7 +1386,9 @@ def generator_across_invocations_of_one_workflow(ctx: Ctx) -> None:
 
 
 def run(ctx: Ctx) -> None:
-    lean_stage(ctx, None, THEOREMS)
+    from harness.translate import detop as trdetop
+
+    lean_stage(ctx, trdetop.gen, THEOREMS)
     generator_across_processes(ctx)
     generator_across_invocations_of_one_workflow(ctx)
     records_of_one_workflow_written_concurrently(ctx)
